@@ -17,29 +17,65 @@ RULE = ('42 fixed formulas (as written; compared with the model only) and 2500*s
         'depth <= 6 quick, <= 9 thorough: 60 % arithmetic trees, 25 % one comparison, 15 % top-level & chains of 2..4 integer '
         'operands. Leaves: integer literals (15 primes), decimals, leading-dot decimals, percent and power literals, 4 variables, '
         '5 cell references in the four $ patterns and either case, and (5 % of the leaves) the variables e_na/e_num/e_ref bound to '
-        'the error values #N/A/#NUM!/#REF! - the value of the tree is then the error met first, left to right. Inner nodes: + - * '
+        'the error values #N/A/#NUM!/#REF! - the value of the tree is then the error met first, left to right; a quarter of the '
+        'decimal leaves have integer part 0..39 and two decimals 01..99 (as a rule no dyadic fraction: the literal denotes the '
+        'nearest double), the others one of the decimals 5 / 25 / 125 / 0 / 75 after a prime. Blank-'
+        'valued operands (the variable NULL or a cell nobody fills, Z9 / z9 / $Y$8, half of the time in redundant parentheses) '
+        'stand for 4 % of the operands of + - * /, for one side (20 %: both sides) of 4 % of the comparisons and for 10 % of the '
+        'parts of the & chains: a blank counts as 0 under + - * /, as the empty text under &, as the zero of the other side\'s '
+        'kind in a comparison. Inner nodes: + - * '
         '/, unary minus, calls of the host function ID, parenthesised comparisons used as numbers, and (5 % of the operands of + '
         '- * /) a parenthesised concatenation of integers read as the number its digits spell. In 30 % of the comparisons, when '
         'all intermediate values of one side are doubles (integers below 2^53), the other side is a twin of the same exact value '
         'written differently (n, n.0, 2n/2, .5*2n; the side itself when not whole) - the comparison sits on its boundary. The host function and the '
         'cell and variable listeners evaluate further formulas on the same parser during the evaluation. Each tree is rendered '
         'with minimal parentheses (for the precedence the statement prescribes), fully parenthesised, and with white space '
-        '(blanks, tabs, newlines at token boundaries) and, half of the time, a redundant outer pair of parentheses. Thorough '
+        '(blanks, tabs, newlines at token boundaries) and, half of the time, a redundant outer pair of parentheses. Ahead of '
+        'the seeded trees 400*scale (thorough 3000) decimal-literal cases (kind tree): a literal with integer part 0..29 and 1..3 '
+        'decimals alone (half), or compared by = < > <> with a literal of the same integer part and two decimals or with the sum '
+        'integer part + leading-dot literal of the same digits - the literal alone and literal against literal are judged '
+        'exactly (every value is a double), the sum form only when integer part + fraction is itself a double (else the '
+        'comparison is fragile, see below). 350*scale (thorough 6000) valued trees (kind '
+        'vtree), half dates, half arrays, rendered the same three ways. Dates (depth 0..3): leaves are the date-time variables '
+        'ta..te (times of day with 0, 1, 500 and 999 milliseconds, ta = te) and calls DATE(2021,3,d), d = 3..6; date + days, '
+        'days + date, date - days, where days is one of 8 literals that are whole milliseconds (0.00001, 0.5, .25, 1, 2, 0.001, '
+        '0.125, 1.5) or a difference of two dates; on top a comparison of two dates (50 %), a comparison of a difference of dates '
+        'with a day literal (15 %), a difference of dates (20 %) or the date itself (15 %). Arrays (depth 1..3): leaves are '
+        'integers, one-element literals {n}, the variables one = [10] and cel = [[12]], vec = [1,2,3] and wec = [4,6,12], literal '
+        'arrays of three primes written with , ; or \\ as separator; operators + - * / (- and / twice as likely) between shapes '
+        's (scalar), o (one element), v (three) - two one-element arrays never meet under one operator; 30 % of the non-scalar '
+        'trees sit inside SUM( ), 30 % of those inside -SUM( ). Thorough '
         'adds all 680 trees with 1..3 operators from + - * / < over the leaves 2,3,5,7 (minimal and full). Compared: (a) the tree built by the '
         'real ply tables (semantic actions replaced after table construction) with the model parser\'s tree; (b) model evaluation '
         'with real evaluation; oracle (trees): every rendering evaluates to the exact rational value of the tree (integers and '
-        'logicals exactly, floats within 1e-9, errors by code with result None, x/0 = #DIV/0!). A tree holding a comparison whose '
+        'logicals exactly, floats exactly when every intermediate value of the tree is a double and within 1e-9 otherwise, errors '
+        'by code with result None, x/0 = #DIV/0!; a decimal literal is worth the double nearest to the number it spells); oracle '
+        '(valued trees, vexact): exact arithmetic in milliseconds / Fractions - a date within a quarter of a millisecond, a number '
+        'within 1e-9, an array element by element after flattening with the same length, a logical exactly; a comparison is '
+        'judged only when its sides differ by at least 1 ms or are equal leaves (variables or DATE calls; equality reached '
+        'through arithmetic is left to rounding), only date with date or number with number; a division by zero and two arrays of '
+        'different lengths under one operator are not judged. A tree holding a comparison whose '
         'sides agree within 1e-9 relative while some intermediate value is not a double is fragile: its value is judged neither by the '
-        'oracle nor against the model, its shape still is. Non-trivial = a fixed formula or a tree with at least two operators '
+        'oracle nor against the model, its shape still is (valued trees are always compared with the model, shape and value: dates '
+        'within 2 microseconds + 2^-49 of the count since 1900, floats within 1e-9). Non-trivial = a fixed formula or a tree with at least two operators '
         '(unary minus counts). When a proof or the correspondence broke: the quick generator at scale 10.')
 TRUSTED = ['ply.yacc LALR(1) table construction and conflict resolution: modelled by a precedence-climbing parser driven by the '
            'generated precedence table; tied by tree-shape correspondence, not proved',
-           'float arithmetic is compared with exact rational arithmetic up to 1e-9 relative error (absolute below 1)']
+           'float arithmetic is compared with exact rational arithmetic up to 1e-9 relative error (absolute below 1)',
+           'the oracle\'s reference evaluators exact (numbers, logicals, digit text, blanks, error values) and vexact (dates in '
+           'milliseconds since 1899-12-30, arrays as flattened lists) are written by hand from the usual reading below',
+           'valued trees: DATE and SUM are the library\'s builtins (and the model\'s), not judged for themselves']
 ASSUMPTIONS = ['relative precedence of & versus + - * / is not fixed by the statement: & appears only in top-level chains '
                'with atomic or parenthesised operands and inside parentheses as an operand of + - * /',
                'usual reading of the values: unary minus and + - * / read a logical as 1/0, + - * / read digit text as its number; & joins the '
                'decimal spellings of integers; a comparison of a number with a logical puts every number below every logical (C07); '
-               'an error operand makes the result that error, the left operand first']
+               'an error operand makes the result that error, the left operand first; a blank operand (the variable NULL, a cell nobody '
+               'fills) counts as 0 under unary minus and + - * /, as the empty text under &, and in a comparison as the zero of the '
+               'other side\'s kind (two blanks are equal); a decimal literal denotes the double nearest to the number it spells',
+               'valued trees: a date plus or minus a number of days is that date-time shifted (to the millisecond), the difference of two '
+               'dates is their distance in days, dates compare by instant, DATE(y,m,d) is midnight of that day; + - * / between an array '
+               'and a scalar or a one-element array ([x] or [[x]]) works on every element, between two arrays of the same length '
+               'pairwise, the nesting of the answer being left open; SUM adds the elements']
 
 # the reading the statement prescribes (1 = loosest)
 SPEC = {'=': (1, 'left'), '<>': (1, 'left'), '<': (1, 'left'), '>': (1, 'left'), '<=': (1, 'left'), '>=': (1, 'left'),
